@@ -11,7 +11,7 @@ MC = {"quick": [("MC_Export", "MC_Artists.cfg", 4)], "thorough": [("MC_Export", 
 TRACE = ("Trace_Cells", "Trace_Cells.cfg")
 REPEAT_EVENTS = 4      # see core.check
 THOROUGH_EXTRA_SEEDS = 2
-REQUIRED = ["held-memory", "held-file", "held-dask", "held-emsopen", "PolyCollection", "Quiver", "holes", "refuse-dims", "refuse-both", "clim-override", "transform-override",
+REQUIRED = ["after-mutation", "held-memory", "held-file", "held-dask", "held-emsopen", "PolyCollection", "Quiver", "holes", "refuse-dims", "refuse-both", "clim-override", "transform-override",
             "array-override", "mode-name", "mode-array", "mode-anon", "quiver-empty",
             "cf1d", "cf2d", "shoc_simple", "shoc_standard", "arakawa", "ugrid"]
 RULE = ("one case = one dataset with lattice geometry and holes on which make_poly_collection (no data; scalar by name, as "
@@ -48,7 +48,14 @@ def cases(tier: str, seed: int) -> list[dict]:
               {"a": "Quiver", "u": "pu", "v": "pv", "mode": "name", "refuse": ""},
               {"a": "Quiver", "u": "pu", "v": "pv", "mode": "array", "refuse": ""},
               {"a": "Quiver", "u": "", "v": "", "mode": "name", "refuse": ""},
-              {"a": "Quiver", "u": "temp", "v": "temp", "mode": "name", "refuse": "dims"}]
+              {"a": "Quiver", "u": "temp", "v": "temp", "mode": "name", "refuse": "dims"},
+              # the variables are replaced in place on the same dataset object (unit conversion, say) and plotted again by
+              # name, as an array, and as arrows
+              {"a": "Mutate", "off": 1000, "total": 1000},
+              dict(base, a="PolyCollection", var="plotv", mode="name"),
+              dict(base, a="PolyCollection", var="single", mode="name"),
+              dict(base, a="PolyCollection", var="flag", mode="array"),
+              {"a": "Quiver", "u": "pu", "v": "pv", "mode": "name", "refuse": ""}]
         out.append({"src": "gen", "world": w, "events": ev})
     return out
 
